@@ -714,7 +714,13 @@ func equivalentCheckConfigInV2(
 	if err != nil {
 		return nil, err
 	}
-	deprecations, err := bufcheck.GetDeprecatedIDToReplacementIDs(expectedRules)
+	// The configured rules never include a deprecated rule (naming one configures its
+	// replacements), so the deprecations are taken from all rules of the version migrated from.
+	sourceRules, err := client.AllRules(ctx, ruleType, checkConfig.FileVersion())
+	if err != nil {
+		return nil, err
+	}
+	deprecations, err := bufcheck.GetDeprecatedIDToReplacementIDs(sourceRules)
 	if err != nil {
 		return nil, err
 	}
